@@ -144,11 +144,11 @@ def enumerate_images(points, A, center, radius, chunk=20000):
         pos = points[None, :, :] + delta[:, None, :]
         dd = dist(pos, center)  # (M, N)
         near = np.abs(dd - radius) < tol
-        if not K:
-            # plain grid: a point bit-identical to the centre is inside for every r >= 0 (exact comparison in
-            # the k-d tree; d == 0 alone could be an underflow).  With lattice vectors the same situation at
-            # r == 0 stays ambiguous: the point sits on the sphere and the library's fractional bounds round.
-            near &= ~np.all(points == center, axis=-1)[None, :]
+        # a point bit-identical to the centre (zero translation) is inside for every r >= 0: its distance is
+        # exactly 0, not a rounded quantity (d == 0 alone could be an underflow).  Since fix fe2fbca the
+        # periodic grid must return it at r == 0 as well, like the plain grid does.
+        zero_T = np.all(Ta == 0, axis=1) if K else np.ones(len(Ts), dtype=bool)
+        near &= ~(zero_T[:, None] & np.all(points == center, axis=-1)[None, :])
         inside = (dd <= radius) | near
         if not inside.any():
             continue
